@@ -99,6 +99,14 @@ EXPLANATION = ("Model: Model/Dbal.v (+ Model/Unrank.v for the ranks -> triples s
                "(with max_combos = 0 the code raises on unpacking an empty zip while the model would return -inf scores: the model is not "
                "claimed for that value).  Arrays are rectangular lists of lists (a 0-row array has no width), as everywhere in Model/Dbal.v.")
 
+# ---- wave 6 of the source link: the constructor of GaussianDBALScorer (Generated/SrcInits.v, Proofs/C05Source_Init_DBALScorer.v) ----
+THEOREMS.update({
+    "C05_model_is_source_init": "the translated GaussianDBALScorer.__init__ stores (max_chunk, max_triples) (defaults 50 / 5000, checked against the signature): the max_chunk the translated score splits by and the max_triples it hands to the kernel as max_combos are the constructor arguments",
+})
+EXPLANATION += ("  CONSTRUCTOR: GaussianDBALScorer.__init__ is re-translated on every run (LS_INIT_DBAL -> Generated/SrcInits.v) and proved to store its two "
+                "arguments; trusted: the translator only (no primitive): `self.<attr>` is a variable of the translation (attr_vars), the value of the translated __init__ is the tuple of the attributes when it ends; an attribute that is not declared is refused; the statement `super().__init__(**kwargs)` is IGNORED - trusted: the base class Scorer "
+                "defines no __init__ (object.__init__ stores nothing; its TypeError for unexpected keyword arguments is not modelled).")
+
 TRUSTED = [
     "source-translation links C05_model_is_source_*: the translator harness/py2gal.py (rendering into Lib/PyRt.v) and the primitives of the "
     "configurations C05_SCORE, C05_PAD, C05_HETERO, C05_HOMO, C05_KERNEL_CHECKS, C05_KERNEL_TRIPLES in harness/src_functions.py (listed "
